@@ -68,7 +68,7 @@ class Suci(Stream):
         if "panic" in o:
             s = "([],[],[],[],[],[],[])"
         else:
-            plmns = [o["mobile_plmn"]] + [o[k] for k in ("ngsetup_plmn_gnb", "ngsetup_plmn_ta", "uli_plmn_nrcgi", "uli_plmn_tai") if k in o]
+            plmns = [o["mobile_plmn"]] + [o[k] for k in ("ngsetup_plmn_gnb", "ngsetup_plmn_ta", "uli_plmn_nrcgi", "uli_plmn_tai") if k in o] + list(o.get("more_plmns") or [])
             s = "(%s, %s, %s, %s, %s, %s, %s)" % (dl(c["mcc"]), dl(c["mnc"]), dl(c["msin"]), C.cN(bytes.fromhex(o["buf"])),
                                                    C.cN(bytes.fromhex(o["regreq"])), C.cN(bytes.fromhex(o["deregreq"])),
                                                    "[" + ";".join(C.cN(bytes.fromhex(p)) for p in plmns) + "]")
@@ -91,9 +91,11 @@ class SuciProc(Stream):
     requires = ["Dec", "SuciEnc", "Suci", "C11Check"]
     shard = 60
     model_check = None
-    spec_check = ("(fun c : list N * list N * list N * list N * bool => let '(mcc, mnc, msin, plain, isreg) := c in "
+    spec_check = ("(fun c : list N * list N * list N * list N * bool * list (list N) => let '(mcc, mnc, msin, plain, isreg, plmns) := c in "
+                  "forallb (fun o => plmn_is o mcc mnc) plmns && "
+                  "match plain with [] => true | _ => "
                   "match mobile_identity_of (if isreg then REGISTRATION_REQUEST else DEREGISTRATION_REQUEST_UE_ORIG) plain with "
-                  "Some mi => suci_is mi mcc mnc msin | None => false end)")
+                  "Some mi => suci_is mi mcc mnc msin | None => false end end)")
 
     def generate(self, rng, tier):
         cs = []
@@ -103,6 +105,8 @@ class SuciProc(Stream):
             supi = "%0*d" % (len(imsi), int(imsi) + n)
             for proc in ("register", "deregister"):
                 cs.append({"proc": proc, "imsi": imsi, "n": n, "mnc": mnc, "mcc": mcc, "supi": supi})
+            if n == 0:      # the REAL ManageNGSetup for this subscriber's PLMN (every PLMN identity of its NG SETUP REQUEST)
+                cs.append({"proc": "ngsetup", "imsi": imsi, "n": 0, "mnc": mnc, "mcc": mcc, "supi": supi})
         tail = rng.digits(4)
         groups = 6 if tier == "quick" else 40
         for g in range(groups):
@@ -124,6 +128,10 @@ class SuciProc(Stream):
         return c["proc"] + c["supi"]
 
     def direct_check(self, c, o):
+        if c["proc"] == "ngsetup":
+            if "panic" in o or "read_err" in o or "decode_err" in o or len(o.get("plmns") or []) < 2:
+                return "ManageNGSetup did not write an NG SETUP REQUEST with its PLMN identities: %r" % ({k: v for k, v in o.items() if k != "msg"},)
+            return None
         if "panic" in o or "read_err" in o or "decode_err" in o or not o.get("plain"):
             return "the procedure did not write a decodable first message: %r" % ({k: v for k, v in o.items() if k != "msg"},)
         if o.get("supi") != "imsi-" + c["supi"]:
@@ -132,7 +140,10 @@ class SuciProc(Stream):
 
     def coq_case(self, c, o):
         npl = len(c["mcc"]) + len(c["mnc"])
-        return "(%s, %s, %s, %s, %s)" % (dl(c["mcc"]), dl(c["mnc"]), dl(c["supi"][npl:]), C.cN(bytes.fromhex(o.get("plain", ""))), C.cbool(c["proc"] == "register"))
+        if c["proc"] == "ngsetup":
+            # user location PLMNs of the uplink messages are a matter of the NG Setup before them: only this message's own PLMNs
+            return "(%s, %s, %s, [], true, [%s])" % (dl(c["mcc"]), dl(c["mnc"]), dl(c["supi"][npl:]), ";".join(C.cN(bytes.fromhex(p)) for p in (o.get("plmns") or [])))
+        return "(%s, %s, %s, %s, %s, [])" % (dl(c["mcc"]), dl(c["mnc"]), dl(c["supi"][npl:]), C.cN(bytes.fromhex(o.get("plain", ""))), C.cbool(c["proc"] == "register"))
 
 
 class PlmnNas(Stream):
